@@ -9,7 +9,7 @@
    It is FALSE on the pinned code (theorem protect_roundtrip_refuted); proved: the same statement for [repaired], and for
    [faithful] under the side conditions that name exactly the failing inputs (theorems protect_roundtrip_partial_std and _osmt). *)
 From Coq Require Import String Ascii List Bool.
-From OsmtV.Print Require Import Gen_Tokens Reader ReaderProofs Quote QuoteProofs SiteProofs.
+From OsmtV.Print Require Import Gen_Tokens Reader ReaderProofs LexLemmas Quote QuoteProofs SiteProofs RoundTrip.
 Import ListNotations.
 Open Scope string_scope.
 
@@ -75,6 +75,38 @@ Theorem protect_injective_illegal_refuted : exists s1 s2,
   s1 <> s2 /\ protectName pinned s1 false = protectName pinned s2 false.
 Proof. exact QuoteProofs.protect_injective_illegal_refuted. Qed.
 Print Assumptions protect_injective_illegal_refuted.
+
+(* --- the lexer model never runs out of fuel (the explicit error value is unreachable) --- *)
+Theorem lex_never_out_of_fuel : forall cfg s, lex cfg s <> OutOfFuel.
+Proof. exact LexLemmas.lex_never_out_of_fuel. Qed.
+Print Assumptions lex_never_out_of_fuel.
+
+(* --- Logic::termToSMT2String (repaired): EVERY well-formed term over legal names reads back as the term printed,
+       under the SMT-LIB lexer and under opensmt's own.  term_sexp is the specification: names as symbols (|x| and x
+       identified), overloaded or abstract-value constants qualified with their sort, numbers as (- n), (/ n d).
+       wf_term: names legal, theory symbols simple, constants that may need (as ..) non-empty, arities respected,
+       numerals digit strings. --- *)
+Theorem print_read_roundtrip_repaired : forall env t,
+  (wf_term std_cfg t = true ->
+     exists e, read_sexps std_cfg (print_term repaired env t) = Some [e] /\ norm_sexp e = term_sexp env t)
+  /\ (wf_term osmt_cfg t = true ->
+     exists e, read_sexps osmt_cfg (print_term repaired env t) = Some [e] /\ norm_sexp e = term_sexp env t).
+Proof. intros env t. split; [apply term_roundtrip_std | apply term_roundtrip_osmt]. Qed.
+Print Assumptions print_read_roundtrip_repaired.
+
+Theorem sort_roundtrip_repaired : forall s, wf_sort s = true ->
+  exists e, read_sexps std_cfg (sortToString repaired s) = Some [e] /\ norm_sexp e = sort_sexp s.
+Proof. exact sort_roundtrip_std. Qed.
+Print Assumptions sort_roundtrip_repaired.
+
+(* on the pinned code the same statement fails: a constant called _ *)
+Theorem print_read_roundtrip_refuted : exists env t, wf_term std_cfg t = true /\
+  forall e, read_sexps std_cfg (print_term pinned env t) = Some [e] -> norm_sexp e <> term_sexp env t.
+Proof.
+  exists [usym "_" [] U], (TApp (usym "_" [] U) []). split; [vm_compute; reflexivity|].
+  intros e H. vm_compute in H. inversion H; subst. vm_compute. discriminate.
+Qed.
+Print Assumptions print_read_roundtrip_refuted.
 
 (* --- Logic::disambiguateName --- *)
 Theorem disambiguation_refuted : exists env d1 d2,
@@ -152,6 +184,17 @@ Theorem echo_roundtrip_refuted :
 Proof. exact SiteProofs.echo_roundtrip_refuted. Qed.
 Print Assumptions echo_roundtrip_refuted.
 
+(* every well-formed request (legal names, numerals / decimals as literals, applications with at least one argument,
+   lets with at least one binding, (as x S), (! t :named n)) is echoed so that it reads back as the request *)
+Theorem echo_roundtrip_repaired : forall a, wf_ast a = true ->
+  (snd (echo repaired a) = false /\
+   exists e, read_sexps std_cfg (fst (echo repaired a)) = Some [e] /\ norm_sexp e = ast_sexp a)
+  /\ (exists e, read_sexps osmt_cfg (fst (echo repaired a)) = Some [e] /\ norm_sexp e = ast_sexp a).
+Proof.
+  intros a H. split; [exact (echo_roundtrip_std a H)|]. destruct (echo_roundtrip_osmt a H) as [_ E]. exact E.
+Qed.
+Print Assumptions echo_roundtrip_repaired.
+
 Theorem echo_repaired_examples :
   echo_ok std_cfg repaired (A_app (H_sym "f") [A_sym "a b"; A_as "c" U; A_const "12"; A_const "0.5"])
   /\ echo_ok osmt_cfg repaired (A_app (H_sym "f") [A_sym "a b"; A_as "c" U; A_const "12"])
@@ -199,6 +242,17 @@ Example printed_examples :
   /\ protectName repaired "" false = "||" /\ protectName repaired "-5" false = "|-5|"
   /\ protectName faithful "and" true = "and".
 Proof. repeat split; vm_compute; reflexivity. Qed.
+
+Example wf_term_example :
+  wf_term std_cfg (TApp (usym "f g" [U; Sort "S T" []] B) [TApp (usym "let" [] U) []; TApp (usym "-5" [] (Sort "S T" [])) []]) = true
+  /\ wf_term osmt_cfg (TApp {| sd_name := "<="; sd_args := [Sort "Int" []; Sort "Int" []]; sd_ret := B; sd_interp := true |}
+                            [TNumC true "3" (Some "2"); TApp (usym "" [Sort "Int" []] (Sort "Int" [])) [TNumC false "7" None]]) = true.
+Proof. split; vm_compute; reflexivity. Qed.
+
+Example wf_ast_example :
+  wf_ast (A_let [("x y", A_app (H_sym "+") [A_const "1"; A_sym "-5"; A_const "0.25"])]
+                (A_bang (A_app (H_as "f" U) [A_sym "x y"; A_as "c d" (Sort "S T" [])]) "n 1")) = true.
+Proof. vm_compute. reflexivity. Qed.
 
 Example ambiguous_env_exists :
   is_ambiguous [usym "a b" [] U; usym "a b" [] B] "a b" = true.
